@@ -5,7 +5,9 @@ set -u
 ID=$1; TIER=${2:-quick}; shift; shift 2>/dev/null || true
 PROPS=${*:-C01 C02 C03 C04 C05 C06 C07 C08 C09 C10 C11 C12 C13 C14 C15 C16 C17 C18 C19 C20}
 cd /verif
-trap 'git -C /repo checkout -- . ; echo "[reverted /repo]"' EXIT INT TERM
+# evidence/ and replays/ describe the UNCHANGED tree: keep them out of the way while a seeded change is tried
+BK=$(mktemp -d /verif/.seeded_backup.XXXX); cp -r evidence replays $BK/ 2>/dev/null
+trap 'git -C /repo checkout -- . ; rm -rf /verif/evidence /verif/replays; mv $BK/evidence $BK/replays /verif/ 2>/dev/null; rmdir $BK; echo "[reverted /repo, restored evidence/ and replays/]"' EXIT INT TERM
 git -C /repo diff --quiet || { echo "/repo is dirty"; exit 2; }
 git -C /repo apply "/verif/seeded/$ID/patch.diff" || { echo "patch does not apply"; exit 2; }
 echo "== repo suite with the change"
